@@ -161,7 +161,10 @@ func exprText(fset *token.FileSet, e ast.Expr) string {
 
 // skeleton lists, in source order, the decisions of a function: if-conditions, type switches and
 // their case types, value switches and their case lists, type assertions, and returns.
-func skeleton(fset *token.FileSet, fn *ast.FuncDecl) []string {
+func skeleton(fset *token.FileSet, fn *ast.FuncDecl) []string { return skeletonR(fset, fn, false) }
+
+// skeletonR with rich=true also lists call statements and assignments (the whole effect of small functions).
+func skeletonR(fset *token.FileSet, fn *ast.FuncDecl, rich bool) []string {
 	var out []string
 	var walk func(n ast.Node) bool
 	walk = func(n ast.Node) bool {
@@ -233,6 +236,50 @@ func skeleton(fset *token.FileSet, fn *ast.FuncDecl) []string {
 		case *ast.DeferStmt:
 			out = append(out, "defer "+exprText(fset, x.Call.Fun))
 			return false
+		case *ast.ExprStmt:
+			if rich {
+				out = append(out, "do "+exprText(fset, x.X))
+				return false
+			}
+		case *ast.AssignStmt:
+			if rich {
+				var ls, rs []string
+				for _, l := range x.Lhs {
+					ls = append(ls, exprText(fset, l))
+				}
+				for _, r := range x.Rhs {
+					rs = append(rs, exprText(fset, r))
+				}
+				out = append(out, "set "+strings.Join(ls, ",")+" "+x.Tok.String()+" "+strings.Join(rs, ","))
+				return false
+			}
+		case *ast.BranchStmt:
+			if rich {
+				out = append(out, x.Tok.String())
+				return false
+			}
+		case *ast.IncDecStmt:
+			if rich {
+				out = append(out, "set "+exprText(fset, x.X)+x.Tok.String())
+				return false
+			}
+		case *ast.ForStmt:
+			if rich {
+				cond := ""
+				if x.Cond != nil {
+					cond = exprText(fset, x.Cond)
+				}
+				if x.Init != nil {
+					ast.Inspect(x.Init, walk)
+				}
+				out = append(out, "for "+cond)
+				ast.Inspect(x.Body, walk)
+				if x.Post != nil {
+					ast.Inspect(x.Post, walk)
+				}
+				out = append(out, "rof")
+				return false
+			}
 		case *ast.FuncLit:
 			return false
 		}
@@ -259,6 +306,58 @@ func mentions(funcs map[string]*ast.FuncDecl, field string) []string {
 	}
 	sort.Strings(out)
 	return out
+}
+
+// callList lists, in source order, every call expression of a function as source text
+// (for the straight-line methods of the builder and the printer adapter).
+func callList(fset *token.FileSet, fn *ast.FuncDecl) []string {
+	var out []string
+	ast.Inspect(fn.Body, func(n ast.Node) bool {
+		switch x := n.(type) {
+		case *ast.DeferStmt:
+			out = append(out, "defer "+exprText(fset, x.Call))
+			return false
+		case *ast.ExprStmt:
+			if c, ok := x.X.(*ast.CallExpr); ok {
+				out = append(out, exprText(fset, c))
+				return false
+			}
+		case *ast.AssignStmt:
+			for _, r := range x.Rhs {
+				if c, ok := r.(*ast.CallExpr); ok {
+					out = append(out, "= "+exprText(fset, c))
+				}
+			}
+			return false
+		case *ast.ReturnStmt:
+			var rs []string
+			for _, r := range x.Results {
+				rs = append(rs, exprText(fset, r))
+			}
+			out = append(out, strings.TrimSpace("return "+strings.Join(rs, ",")))
+			return false
+		case *ast.IfStmt:
+			out = append(out, "if "+exprText(fset, x.Cond))
+		case *ast.FuncLit:
+			return false
+		}
+		return true
+	})
+	return out
+}
+
+// pairList renders [(name, [lines])] as a Lean list of pairs.
+func pairList(names []string, f func(string) []string) string {
+	var sb strings.Builder
+	sb.WriteString("[")
+	for i, n := range names {
+		if i > 0 {
+			sb.WriteString(",\n  ")
+		}
+		sb.WriteString("(" + strconv.Quote(n) + ", " + strList(f(n)) + ")")
+	}
+	sb.WriteString("]")
+	return sb.String()
 }
 
 func main() {
@@ -481,6 +580,83 @@ func main() {
 	w("def reorderedUsers : List String := %s\n", strList(mentions(rf, "reordered")))
 	w("def goodArgNumUsers : List String := %s\n", strList(mentions(rf, "goodArgNum")))
 	w("def argNumberCallers : List String := %s\n", strList(mentions(rf, "argNumber")))
+	w("\n-- decision lists of the printer functions the model mirrors (print.go, helpers.go)\n")
+	printerFns := []string{"pp.doPrint", "pp.doPrintf", "pp.printValue", "pp.badVerb", "pp.fmtBool", "pp.fmt0x64", "pp.fmtInteger",
+		"pp.fmtFloat", "pp.fmtComplex", "pp.fmtString", "pp.fmtBytes", "pp.fmtPointer", "pp.argNumber", "pp.free", "newPrinter",
+		"pp.handleSpecialValues", "pp.startUnsafe", "pp.startPreRedactable", "pp.startSafeOverride", "pp.startUnsafeOverride",
+		"restorer.restore", "HelperForErrorf"}
+	sk := func(n string) []string {
+		if fd, ok := funcs[n]; ok {
+			if strings.HasPrefix(n, "pp.start") || n == "restorer.restore" || n == "pp.free" || n == "newPrinter" || n == "HelperForErrorf" || n == "pp.doPrint" {
+				return skeletonR(fset, fd, true)
+			}
+			return skeleton(fset, fd)
+		}
+		return []string{"<missing>"}
+	}
+	w("def skelPrinter : List (String × List String) := %s\n", pairList(printerFns, sk))
+	w("\n-- decision lists of the buffer and of the escaping scanner\n")
+	escapeGo := parse("internal/escape/escape.go")
+	builderGo := parse("builder/builder.go")
+	extra := map[string]*ast.FuncDecl{}
+	for _, f := range []*ast.File{escapeGo, builderGo} {
+		for _, d := range f.Decls {
+			if fd, ok := d.(*ast.FuncDecl); ok && fd.Body != nil {
+				key := fd.Name.Name
+				if fd.Recv != nil && len(fd.Recv.List) == 1 {
+					switch t := fd.Recv.List[0].Type.(type) {
+					case *ast.StarExpr:
+						if id, ok := t.X.(*ast.Ident); ok {
+							key = id.Name + "." + key
+						}
+					case *ast.Ident:
+						key = t.Name + "." + key
+					}
+				}
+				extra[key] = fd
+			}
+		}
+	}
+	var bufFns []string
+	for k := range funcs {
+		if strings.HasPrefix(k, "Buffer.") {
+			bufFns = append(bufFns, k)
+		}
+	}
+	sort.Strings(bufFns)
+	skb := func(n string) []string {
+		if fd, ok := funcs[n]; ok {
+			return skeletonR(fset, fd, true)
+		}
+		if fd, ok := extra[n]; ok {
+			return skeletonR(fset, fd, true)
+		}
+		return []string{"<missing>"}
+	}
+	w("def skelBuffer : List (String × List String) := %s\n", pairList(append(bufFns, "InternalEscapeBytes"), skb))
+	w("\n-- the calls, in order, of the straight-line methods of the StringBuilder and of the printer's SafeWriter adapter\n")
+	var callFns []string
+	for k := range extra {
+		if strings.HasPrefix(k, "StringBuilder.") {
+			callFns = append(callFns, k)
+		}
+	}
+	for _, d := range adapterGo.Decls {
+		if fd, ok := d.(*ast.FuncDecl); ok && fd.Body != nil && fd.Recv != nil {
+			callFns = append(callFns, "pp."+fd.Name.Name)
+		}
+	}
+	sort.Strings(callFns)
+	cl := func(n string) []string {
+		if fd, ok := extra[n]; ok {
+			return callList(fset, fd)
+		}
+		if fd, ok := funcs[n]; ok {
+			return callList(fset, fd)
+		}
+		return []string{"<missing>"}
+	}
+	w("def callsWriters : List (String × List String) := %s\n", pairList(callFns, cl))
 	w("\nend Redact.Gen\n")
 
 	if err := os.MkdirAll(outdir, 0o755); err != nil {
